@@ -27,11 +27,13 @@ CHECKS = {
     },
     'C11': {
         'engine': 'V',
-        'technique': 'Verus contracts on ConditionChain (abstraction to C (now,taken) levels) + lemmas',
-        'level_text': 'Unbounded deductive proof (Verus) that ConditionChain::{new,push,switch,pop}, extracted verbatim from preprocess.rs, '
-                      'implement the C #if/#elif/#else/#endif group-selection rule over the (now,taken) abstraction, with unmatched #else/#endif rejected.',
-        'level_note': 'Partial: covers the automaton only. Assumed: contract of ConditionChain::is_active (Iterator::all has no vstd spec). '
-                      'NOT decided: directive gating in preprocess_command, routing of every line through the automaton, the condition evaluator (being added).',
+        'technique': 'Verus contracts on ConditionChain (abstraction to C (now,taken) levels) and on the condition evaluator operators / left fold',
+        'level_text': 'Unbounded deductive proof (Verus) that ConditionChain::{new,push,switch,pop}, extracted verbatim from preprocess.rs, implement the C #if/#elif/#else/#endif group-selection rule over the '
+                      '(now,taken) abstraction with unmatched #else/#endif rejected, that BinOp::apply is the C semantics of the eight binary operators over u64, and that combine_rights groups the operators of one '
+                      'precedence level to the left.  Thorough tier adds a bounded Kani harness driving ConditionChain through its API (sequences of 5 operations) which also discharges the assumed is_active contract.',
+        'level_note': 'Partial: automaton + operator semantics + left fold. Assumed in the quick tier: contract of ConditionChain::is_active (Iterator::all with an un-annotated closure has no usable spec). '
+                      'NOT decided: directive gating in preprocess_command (define/undef/include/pragma in unselected branches), the end-of-input check in preprocess_initial_file, routing of every line through the automaton, '
+                      'the precedence-climbing glue parse_p12..parse_p2 (slice patterns; closures) and macro substitution / defined() in conditions. Assumed: u64::from(bool).',
     },
     'C13': {
         'engine': 'K',
